@@ -303,6 +303,10 @@ func (g *opGen) reqList() []Req {
 		seen[p] = true
 		out = append(out, Req{p, v, rapid.Bool().Draw(g.t, "ind")})
 	}
+	if len(out) > 0 && gen.Chance(g.t, 10, "repeatreq") {
+		// the same requirement listed twice (allowed: "at most one distinct version for each module path")
+		out = append(out, out[gen.Uniform(g.t, len(out), "repeatwhich")])
+	}
 	return out
 }
 
